@@ -4,26 +4,39 @@
 (* (configuration half of DESIGN S2; the handshake/limits half is          *)
 (* UacpNegotiation.tla in this directory.)                                 *)
 (*                                                                         *)
-(* A program is a sequence of client constructions                         *)
-(*     opcua.NewClient(endpoint, opt_1, ..., opt_k)                        *)
-(* followed by every client sending its Hello.  config.go builds a         *)
-(* configuration from defaults (newConfig: DefaultDialer,                  *)
-(* DefaultClientConfig, DefaultSessionConfig) and applies the options in   *)
-(* order.  Everything is modelled by value except the one object the       *)
-(* property is about: the Acknowledge structure that holds the buffer and  *)
-(* limit settings of a dialer.  Acknowledge objects live in a heap (objs)  *)
-(* and have identity; object 0 is the package-level default                *)
-(* uacp.DefaultClientACK.                                                  *)
+(* A program first builds a pool of option VALUES (opcua.ReceiveBufferSize *)
+(* (n), opcua.SecurityFromEndpoint(ep, t), ... : each call of an option    *)
+(* constructor yields one option object) and then runs a sequence of       *)
+(* client constructions                                                    *)
+(*     opcua.NewClient(endpoint, pool[i1], ..., pool[ik])                  *)
+(* in which the SAME option object may be applied to several clients (a    *)
+(* shared opts slice, a connection pool, one client per user).  Finally    *)
+(* every client sends its Hello.  config.go builds a configuration from    *)
+(* defaults (newConfig) and applies the options in order.                  *)
+(*                                                                         *)
+(* Everything is modelled by value except the objects that options write   *)
+(* THROUGH a pointer; these live in heaps and have identity:               *)
+(*   objs   Acknowledge objects of dialers (buffer/limit options write     *)
+(*          through cfg.dialer.ClientACK); object 0 is the package-level   *)
+(*          uacp.DefaultClientACK                                          *)
+(*   nds    net.Dialer objects of dialers (DialTimeout writes through      *)
+(*          cfg.dialer.Dialer); a library-created dialer has its own, a    *)
+(*          caller-owned dialer (option Dialer(d)) brings the caller's     *)
+(*   toks   user identity tokens (AuthUsername, AuthCertificate,           *)
+(*          AuthIssuedToken, AuthPolicyID, SecurityFromEndpoint write      *)
+(*          through cfg.session.UserIdentityToken)                         *)
 (*                                                                         *)
 (*   NewClient    a configuration is created from the defaults             *)
-(*                contract: the client gets its own Acknowledge object,    *)
-(*                          a copy of the default                          *)
-(*                Dev_SharedDefaultAck: the client's dialer points at      *)
-(*                          object 0 itself (config.go:72)                 *)
-(*   ApplyOpt(o)  one option function runs on the configuration under      *)
-(*                construction (buffer/limit options write through the     *)
-(*                dialer's Acknowledge pointer, config.go:600-629;         *)
-(*                Dialer(d) installs a caller-owned dialer/Acknowledge)    *)
+(*                contract: the client gets its own Acknowledge object     *)
+(*                Dev_SharedDefaultAck: its dialer points at object 0      *)
+(*                (config.go:72 of the pinned tree, repaired)              *)
+(*   ApplyOpt     the next option object runs on the configuration under   *)
+(*                construction.  contract: an option object carries only   *)
+(*                immutable arguments, every mutable object it installs    *)
+(*                is created during the application                        *)
+(*                Dev_OptionCapturesToken: SecurityFromEndpoint creates    *)
+(*                its identity token when the option object is built and   *)
+(*                installs that one object in every configuration          *)
 (*   Finish       NewClient returns                                        *)
 (*   Hello(c)     client c dials: the Hello carries the values of its      *)
 (*                Acknowledge object at that moment (uacp/conn.go:226)     *)
@@ -36,60 +49,112 @@ EXTENDS Naturals, Sequences, FiniteSets, TLC, Json
 
 CONSTANTS MaxClients,            \* constructions per program
           MaxOpts,               \* options per construction
-          Dev_SharedDefaultAck,  \* TRUE: the code as it is (DefaultDialer shares uacp.DefaultClientACK)
+          MaxPool,               \* option objects per program (sampling)
+          Dev_SharedDefaultAck,  \* TRUE: DefaultDialer shares uacp.DefaultClientACK (deviation demo; repaired in /repo)
+          Dev_OptionCapturesToken, \* TRUE: an option object owns a mutable token (deviation demo)
           Concrete,              \* TRUE: the full option list; FALSE: one representative per kind
+          Family,                \* "free" | "pairs" | "shared" : shape of the programs chosen by Init
           Emit, Samples,
           FromFile               \* TRUE: programs are read from progs.ndjson (second pass: same
                                  \* programs under another deviation setting)
 
 AckFields == {"rb", "sb", "mm", "mc"}
-ValFields == {"dt", "pol", "mode", "life", "rt", "ar", "ri", "cert", "key",
-              "st", "sn", "loc", "app", "prod", "auth"}
+ValFields == {"pol", "mode", "life", "rt", "ar", "ri", "cert", "key",
+              "st", "sn", "loc", "app", "prod", "auth", "pw", "aname", "rcert", "ukey"}
 PristineAck == [f \in AckFields |-> 0]
 DefaultVal  == [f \in ValFields |-> 0]
+\* identity token: ty = "none" (nil) | "anon" | "user" | "cert" | "issued";
+\* pid = policy id index (0 = "", 10*v+k = policy k of endpoint v, 100+v = AuthPolicyID(v));
+\* val = user name / certificate / token data index
+NoTok == [ty |-> "none", pid |-> 0, val |-> 0]
 
-\* option name -> what it writes.  kind "ack": one field of the dialer's Acknowledge object;
-\* "val": one by-value field; the others are spelled out in Apply.
+\* option name -> what it writes.  "ack": one field of the dialer's Acknowledge object;
+\* "val": one by-value field; the others are spelled out in ApplyOpt.
 AckOpt == [ReceiveBufferSize |-> "rb", SendBufferSize |-> "sb", MaxMessageSize |-> "mm", MaxChunkCount |-> "mc"]
-ValOpt == [DialTimeout |-> "dt", SecurityPolicy |-> "pol", SecurityMode |-> "mode",
+ValOpt == [SecurityPolicy |-> "pol", SecurityMode |-> "mode",
            SecurityModeString |-> "mode", Lifetime |-> "life", RequestTimeout |-> "rt",
            AutoReconnect |-> "ar", ReconnectInterval |-> "ri", PrivateKey |-> "key",
            SessionTimeout |-> "st", SessionName |-> "sn", Locales |-> "loc",
-           ApplicationURI |-> "app", ProductURI |-> "prod"]
-Special == {"Certificate", "SecurityFromEndpoint", "OwnDialer"}
-AllNames == DOMAIN AckOpt \cup DOMAIN ValOpt \cup Special
-RepNames == {"ReceiveBufferSize", "MaxMessageSize", "DialTimeout", "SecurityPolicy", "SessionName", "OwnDialer"}
+           ApplicationURI |-> "app", ProductURI |-> "prod", ApplicationName |-> "aname",
+           RemoteCertificate |-> "rcert", AuthPrivateKey |-> "ukey"]
+\* SecurityFromEndpoint(endpoint v, token type): policy, mode, token policy of the endpoint
+SfeType == [SecurityFromEndpoint |-> "anon", SecurityFromEndpointUser |-> "user", SecurityFromEndpointCert |-> "cert"]
+SfeK    == [anon |-> 1, user |-> 2, cert |-> 3]
+\* Auth*(value v): token type they create / require
+AuthType == [AuthAnonymous |-> "anon", AuthUsername |-> "user", AuthCertificate |-> "cert", AuthIssuedToken |-> "issued"]
+Special == {"Certificate", "OwnDialer", "DialTimeout", "AuthPolicyID"}
+AllNames == DOMAIN AckOpt \cup DOMAIN ValOpt \cup DOMAIN SfeType \cup DOMAIN AuthType \cup Special
+RepNames == {"ReceiveBufferSize", "MaxMessageSize", "DialTimeout", "SessionName", "OwnDialer",
+             "SecurityFromEndpointUser", "AuthUsername", "AuthPolicyID"}
 Opt(n, v) == [o |-> n, v |-> v]
-Options == {Opt(n, v) : n \in (IF Concrete THEN AllNames ELSE RepNames), v \in (IF Concrete THEN 1..2 ELSE {1})}
+Names   == IF Concrete THEN AllNames ELSE RepNames
+Options == {Opt(n, v) : n \in Names, v \in (IF Concrete THEN 1..2 ELSE {1})}
 
-VARIABLES prog,     \* the program: sequence of option sequences (one per construction)
+VARIABLES pool,     \* the option objects of the program (sequence of option values)
+          prog,     \* the constructions: sequence of sequences of pool indices
           objs,     \* heap of Acknowledge objects: 0 = uacp.DefaultClientACK,
-                    \*   i = created by the library for client i, MaxClients+i = owned by the caller
-          clients,  \* finished and current clients: [ack: object id, v: by-value fields]
+                    \*   i = created by the library for client i,
+                    \*   MaxClients+j = inside the caller-owned dialer of option object j (Dialer(d))
+          nds,      \* heap of net.Dialer objects (field: dial timeout), same ids
+          toks,     \* heap of identity tokens: 1..MaxClients created during an application,
+                    \*   MaxClients+j = owned by option object j (only with Dev_OptionCapturesToken)
+          ntok,     \* tokens created during applications so far
+          clients,  \* finished and current clients: [ack, tok: object ids (tok 0 = nil), v: by-value fields]
           cur,      \* client under construction (0 = none)
           k,        \* options of the current construction applied so far
           wire,     \* Hello messages seen on the wire: [c, ack values]
           hist      \* expected observations after each construction / Hello
-vars == <<prog, objs, clients, cur, k, wire, hist>>
+vars == <<pool, prog, objs, nds, toks, ntok, clients, cur, k, wire, hist>>
 
-ObjIds == 0..(2 * MaxClients)
-Deref(c) == [ack |-> objs[clients[c].ack], v |-> clients[c].v]
+PoolMax == IF MaxPool > MaxClients * MaxOpts THEN MaxPool ELSE MaxClients * MaxOpts
+ObjIds == 0..(MaxClients + PoolMax)
+CallerOwned(id) == id > MaxClients
+TokIds == 1..(MaxClients + PoolMax)
+TokOf(c) == IF clients[c].tok = 0 THEN NoTok ELSE toks[clients[c].tok]
+WithDt(v, dt) == [f \in ValFields \cup {"dt"} |-> IF f = "dt" THEN dt ELSE v[f]]
+Deref(c) == [ack |-> objs[clients[c].ack], tok |-> TokOf(c), v |-> WithDt(clients[c].v, nds[clients[c].nd])]
+\* the part of a configuration that does not live in a caller-owned dialer
+DerefLib(c) == [tok |-> TokOf(c), v |-> clients[c].v]
 \* what a client created now without options would see
-FreshView == [ack |-> objs[0], v |-> DefaultVal]
+FreshView == [ack |-> objs[0], tok |-> NoTok, v |-> WithDt(DefaultVal, 0)]
 Snapshot == [cl |-> [c \in 1..Len(clients) |-> Deref(c)], def |-> objs[0], fresh |-> FreshView]
 
-OptSeqs == UNION {[1..n -> Options] : n \in 0..MaxOpts}
 Progs   == ndJsonDeserialize("progs.ndjson")
 
-Init0 == /\ objs = [i \in ObjIds |-> PristineAck]
+\* a caller-owned dialer exists (with the values the caller gave it) before any client is built
+Init0 == /\ objs = [i \in ObjIds |-> IF CallerOwned(i) /\ i - MaxClients <= Len(pool) /\ pool[i - MaxClients].o = "OwnDialer"
+                                     THEN [f \in AckFields |-> pool[i - MaxClients].v] ELSE PristineAck]
+         /\ nds = [i \in ObjIds |-> IF CallerOwned(i) /\ i - MaxClients <= Len(pool) /\ pool[i - MaxClients].o = "OwnDialer"
+                                    THEN pool[i - MaxClients].v ELSE 0]
+         /\ toks = [i \in TokIds |-> NoTok] /\ ntok = 0
          /\ clients = <<>> /\ cur = 0 /\ k = 0 /\ wire = <<>> /\ hist = <<>>
-Init  == /\ IF FromFile THEN \E i \in 1..Len(Progs) : prog = Progs[i].prog
-                        ELSE prog \in UNION {[1..n -> OptSeqs] : n \in 1..MaxClients}
+\* Program families (Init):
+\*  "free"   every pool of distinct option objects, one object per use (model checking)
+\*  "pairs"  client 1: [X], client 2: [Y]               two different option objects
+\*  "shared" client 1: [X], client 2: [X, Y]            the SAME object X applied to both
+OptSeqs(n) == UNION {[1..m -> Options] : m \in 0..n}
+InitFree == \E a \in OptSeqs(MaxOpts), b \in OptSeqs(MaxOpts), share \in BOOLEAN,
+               c \in (IF MaxClients >= 3 THEN OptSeqs(1) ELSE {<<>>}) :
+               \* client 2 either builds its own objects or re-uses client 1's first object first;
+               \* a third client (thorough) builds its own
+               /\ pool = a \o b \o c
+               /\ prog = <<[i \in 1..Len(a) |-> i],
+                           (IF share /\ Len(a) > 0 THEN <<1>> ELSE <<>>) \o [i \in 1..Len(b) |-> Len(a) + i]>>
+                         \o (IF MaxClients >= 3 THEN <<[i \in 1..Len(c) |-> Len(a) + Len(b) + i]>> ELSE <<>>)
+InitPairs == \E x \in Options, y \in {o \in Options : o.v = 1} :
+               pool = <<x, y>> /\ prog = <<<<1>>, <<2>>>>
+InitShared == \E x \in {o \in Options : o.v = 1}, y \in Options :
+               pool = <<x, y>> /\ prog = <<<<1>>, <<1, 2>>>>
+Init  == /\ IF FromFile THEN \E i \in 1..Len(Progs) : pool = Progs[i].pool /\ prog = Progs[i].prog
+            ELSE IF Family = "pairs" THEN InitPairs
+            ELSE IF Family = "shared" THEN InitShared
+            ELSE InitFree
          /\ Init0
-\* seeded samples from the full option list
+\* seeded samples: a small pool, so that objects are re-used often
 InitSample ==
     /\ \E s \in 1..Samples : \E n \in 2..MaxClients :
-          prog = [c \in 1..n |-> [j \in 1..RandomElement(0..MaxOpts) |-> RandomElement(Options)]]
+          /\ pool = [j \in 1..MaxPool |-> RandomElement(Options)]
+          /\ prog = [c \in 1..n |-> [j \in 1..RandomElement(0..MaxOpts) |-> RandomElement(1..MaxPool)]]
     /\ Init0
 
 ---------------------------------------------------------------------------
@@ -98,69 +163,112 @@ NewClient ==
     /\ LET c == Len(clients) + 1 IN
        /\ cur' = c /\ k' = 0
        /\ IF Dev_SharedDefaultAck
-          THEN /\ clients' = Append(clients, [ack |-> 0, v |-> DefaultVal])
+          THEN /\ clients' = Append(clients, [ack |-> 0, nd |-> c, tok |-> 0, v |-> DefaultVal])
                /\ objs' = objs
-          ELSE /\ clients' = Append(clients, [ack |-> c, v |-> DefaultVal])
+          ELSE /\ clients' = Append(clients, [ack |-> c, nd |-> c, tok |-> 0, v |-> DefaultVal])
                /\ objs' = [objs EXCEPT ![c] = objs[0]]
-    /\ UNCHANGED <<prog, wire, hist>>
+    /\ UNCHANGED <<pool, prog, nds, toks, ntok, wire, hist>>
 
-SetVal(f, x) == clients' = [clients EXCEPT ![cur].v[f] = x]
+\* the token the current configuration has after "if cfg.session.UserIdentityToken == nil
+\* { create one of type ty }": its id, the heap and the counter after the step.
+\* j = option object that runs (it may own a token when Dev_OptionCapturesToken).
+Ensure(ty, j, capturing) ==
+    IF clients[cur].tok # 0
+    THEN [id |-> clients[cur].tok, heap |-> toks, n |-> ntok]
+    ELSE IF capturing /\ Dev_OptionCapturesToken
+         THEN [id |-> MaxClients + j,
+               heap |-> IF toks[MaxClients + j].ty = "none"
+                        THEN [toks EXCEPT ![MaxClients + j] = [ty |-> ty, pid |-> 0, val |-> 0]] ELSE toks,
+               n |-> ntok]
+         ELSE [id |-> ntok + 1, heap |-> [toks EXCEPT ![ntok + 1] = [ty |-> ty, pid |-> 0, val |-> 0]], n |-> ntok + 1]
+
 ApplyOpt ==
     /\ cur # 0 /\ k < Len(prog[cur])
-    /\ LET o == prog[cur][k + 1] IN
+    /\ LET j == prog[cur][k + 1]
+           o == pool[j] IN
        \/ /\ o.o \in DOMAIN AckOpt
           /\ objs' = [objs EXCEPT ![clients[cur].ack][AckOpt[o.o]] = o.v]
-          /\ UNCHANGED clients
+          /\ UNCHANGED <<clients, nds, toks, ntok>>
+       \/ /\ o.o = "DialTimeout"
+          /\ nds' = [nds EXCEPT ![clients[cur].nd] = o.v]
+          /\ UNCHANGED <<clients, objs, toks, ntok>>
        \/ /\ o.o \in DOMAIN ValOpt
-          /\ SetVal(ValOpt[o.o], o.v) /\ UNCHANGED objs
+          /\ clients' = [clients EXCEPT ![cur].v[ValOpt[o.o]] = o.v]
+          /\ UNCHANGED <<objs, nds, toks, ntok>>
        \/ /\ o.o = "Certificate"            \* also takes the application URI from the certificate
           /\ clients' = [clients EXCEPT ![cur].v["cert"] = o.v, ![cur].v["app"] = 2 + o.v]
-          /\ UNCHANGED objs
-       \/ /\ o.o = "SecurityFromEndpoint"   \* policy, mode and user token policy of endpoint o.v
-          /\ clients' = [clients EXCEPT ![cur].v["pol"] = o.v, ![cur].v["mode"] = o.v, ![cur].v["auth"] = o.v]
-          /\ UNCHANGED objs
-       \/ /\ o.o = "OwnDialer"              \* Dialer(d): caller-owned dialer with its own Acknowledge
-          /\ objs' = [objs EXCEPT ![MaxClients + cur] = [f \in AckFields |-> o.v]]
-          /\ clients' = [clients EXCEPT ![cur].ack = MaxClients + cur, ![cur].v["dt"] = o.v]
+          /\ UNCHANGED <<objs, nds, toks, ntok>>
+       \/ /\ o.o = "OwnDialer"              \* Dialer(d): the configuration points at the caller's dialer
+          /\ clients' = [clients EXCEPT ![cur].ack = MaxClients + j, ![cur].nd = MaxClients + j]
+          /\ UNCHANGED <<objs, nds, toks, ntok>>
+       \/ /\ o.o \in DOMAIN SfeType         \* config.go SecurityFromEndpoint
+          /\ LET e == Ensure(SfeType[o.o], j, TRUE) IN
+             /\ toks' = [e.heap EXCEPT ![e.id].pid = 10 * o.v + SfeK[SfeType[o.o]]]
+             /\ ntok' = e.n
+             \* (the endpoints of the harness carry no server certificate: the remote certificate is reset)
+             /\ clients' = [clients EXCEPT ![cur].tok = e.id, ![cur].v["pol"] = o.v,
+                                           ![cur].v["mode"] = o.v, ![cur].v["auth"] = o.v,
+                                           ![cur].v["rcert"] = 0]
+          /\ UNCHANGED <<objs, nds>>
+       \/ /\ o.o \in DOMAIN AuthType        \* AuthAnonymous / AuthUsername / AuthCertificate / AuthIssuedToken
+          /\ LET e == Ensure(AuthType[o.o], j, FALSE)
+                 match == e.heap[e.id].ty = AuthType[o.o] IN
+             /\ toks' = IF match /\ AuthType[o.o] # "anon" THEN [e.heap EXCEPT ![e.id].val = o.v] ELSE e.heap
+             /\ ntok' = e.n
+             /\ clients' = IF match /\ o.o = "AuthUsername"
+                           THEN [clients EXCEPT ![cur].tok = e.id, ![cur].v["pw"] = o.v]
+                           ELSE [clients EXCEPT ![cur].tok = e.id]
+          /\ UNCHANGED <<objs, nds>>
+       \/ /\ o.o = "AuthPolicyID"           \* only when a token exists
+          /\ toks' = IF clients[cur].tok = 0 THEN toks
+                     ELSE [toks EXCEPT ![clients[cur].tok].pid = 100 + o.v]
+          /\ UNCHANGED <<objs, nds, clients, ntok>>
     /\ k' = k + 1
-    /\ UNCHANGED <<prog, cur, wire, hist>>
+    /\ UNCHANGED <<pool, prog, cur, wire, hist>>
 
 Finish ==
     /\ cur # 0 /\ k = Len(prog[cur])
     /\ cur' = 0 /\ k' = 0
     /\ hist' = Append(hist, [ev |-> "new", c |-> cur, snap |-> Snapshot])
-    /\ UNCHANGED <<prog, objs, clients, wire>>
+    /\ UNCHANGED <<pool, prog, objs, nds, toks, ntok, clients, wire>>
 
 Hello ==
     /\ cur = 0 /\ Len(clients) = Len(prog) /\ Len(wire) < Len(clients)
     /\ LET c == Len(wire) + 1 IN
        /\ wire' = Append(wire, [c |-> c, ack |-> objs[clients[c].ack]])
        /\ hist' = Append(hist, [ev |-> "hello", c |-> c, ack |-> objs[clients[c].ack]])
-    /\ UNCHANGED <<prog, objs, clients, cur, k>>
+    /\ UNCHANGED <<pool, prog, objs, nds, toks, ntok, clients, cur, k>>
 
 Next == NewClient \/ ApplyOpt \/ Finish \/ Hello
 Spec == Init /\ [][Next]_vars
 Done == cur = 0 /\ Len(clients) = Len(prog) /\ Len(wire) = Len(clients)
 
 ---------------------------------------------------------------------------
-\* C23.  Configuring client `cur` never changes what the other existing clients see, nor the
-\* defaults seen by clients created later.
-IsoStep == /\ \A d \in 1..Len(clients) : d # cur' => Deref(d)' = Deref(d)
+\* C23.  Configuring client `cur` never changes what the other existing clients see (their
+\* dereferenced configuration incl. identity token), nor the defaults seen by later clients.
+\* Two clients that were given the SAME caller-owned dialer (Dialer(d) with one d) share that
+\* dialer by the caller's choice: for them only the rest of the configuration must be isolated.
+SameCallerDialer(d, c) == c # 0 /\ c <= Len(clients') /\ CallerOwned(clients'[d].ack) /\ clients'[d].ack = clients'[c].ack
+IsoStep == /\ \A d \in 1..Len(clients) : d # cur' =>
+                  IF SameCallerDialer(d, cur') THEN DerefLib(d)' = DerefLib(d) ELSE Deref(d)' = Deref(d)
            /\ FreshView' = FreshView
 InvIsolation == [][IsoStep]_vars
 \* state form of the second half: the package default keeps its pristine values
 InvDefaultPristine == objs[0] = PristineAck
+\* no two clients hold the same identity token object
+InvOwnToken == \A c, d \in 1..Len(clients) : (c # d /\ clients[c].tok # 0) => clients[c].tok # clients[d].tok
 \* the Hello of a client carries exactly what its own options said (computed from the program alone)
 RECURSIVE OwnAck(_, _)
 OwnAck(os, n) == IF n = 0 THEN PristineAck
-                 ELSE LET a == OwnAck(os, n - 1) o == os[n] IN
+                 ELSE LET a == OwnAck(os, n - 1) o == pool[os[n]] IN
                       IF o.o \in DOMAIN AckOpt THEN [a EXCEPT ![AckOpt[o.o]] = o.v]
-                      ELSE IF o.o = "OwnDialer" THEN [f \in AckFields |-> o.v]
                       ELSE a
-InvHelloOwn == \A i \in 1..Len(wire) : wire[i].ack = OwnAck(prog[wire[i].c], Len(prog[wire[i].c]))
+\* (clients on a caller-owned dialer see what every holder of that dialer wrote)
+InvHelloOwn == \A i \in 1..Len(wire) : ~CallerOwned(clients[wire[i].c].ack) =>
+                   wire[i].ack = OwnAck(prog[wire[i].c], Len(prog[wire[i].c]))
 InvTypes == /\ cur \in 0..MaxClients /\ Len(clients) <= MaxClients
-            /\ \A c \in 1..Len(clients) : clients[c].ack \in ObjIds
+            /\ \A c \in 1..Len(clients) : clients[c].ack \in ObjIds /\ clients[c].tok \in {0} \cup TokIds
 
-Row == [prog |-> prog, hist |-> hist]
+Row == [pool |-> pool, prog |-> prog, hist |-> hist]
 InvEmit == (Emit /\ Done) => PrintT("BEH " \o ToJson(Row))
 =============================================================================
